@@ -508,18 +508,35 @@ def main(run):
         one(cfg, collect)
 
     exhaustive()
-    for _ in range(run.scale(600, 12000)):
+    for _ in range(run.scale(600, 6000)):
         random_case()
-    for _ in range(run.scale(200, 3000)):
+    for _ in range(run.scale(200, 1500)):
         out_of_scope_case()
     if run.thorough:
         exhaustive()      # a second sweep with fresh numbers
 
     run.extra_cov["case_kinds"] = stats
-    run.correspond("model", "C19", terms, cases)
+    bad_model = run.correspond("model", "C19", terms, cases)
     if gen_ok:
         run.correspond("regenerated", "C19", terms, cases, check="check_gen",
                        requires=["From DV Require Import Gen.C19_gen."])
+    elif translated:
+        # diagnosis: the source still translates but is no longer (provably) the model.  Do the regenerated
+        # definitions at least describe the implementation?  (yes + model disagrees => the source changed meaning)
+        try:
+            dfile = os.path.join(run.rundir, "C19_gen_defs.v")
+            with open(dfile, "w") as f:
+                f.write(c19_py2coq.translate_repo(vlib.REPO, trailer=False))
+            rc, out = vlib.coqc_file(dfile, cwd=run.rundir)
+            if rc == 0:
+                bad_gen = run.correspond("regenerated-diagnosis", "C19", terms, cases, check="check_gen",
+                                         requires=["Require Import C19_gen_defs."])
+                run.notes.append("diagnosis: regenerated definitions (not equal to the model) disagree with the implementation on "
+                                 "%d cases, the model on %d cases" % (len(bad_gen), len(bad_model)))
+            else:
+                run.notes.append("diagnosis: regenerated definitions do not compile: " + out[-500:])
+        except Exception as e:  # noqa
+            run.notes.append("diagnosis step failed: %r" % (e,))
 
     def search(run):
         # something no longer checks and no failing input was seen: look harder with the oracle alone
